@@ -1,11 +1,12 @@
 import UtilModel.Core.Driver
 import UtilModel.Keyed.Model
 import UtilModel.Keyed.Monitors
+import UtilModel.Keyed.MonC07r
 /-! Development driver for this component only: `lake env lean --run UtilModel/Keyed/TestDriver.lean keyed < hist` -/
 open UtilModel
 
 def main (args : List String) : IO UInt32 :=
   driverMain [
     mkEntry "keyed" Keyed.model Keyed.Obs.parse
-      [MonEntry.ofMonitor "C06" Keyed.monC06, MonEntry.ofMonitor "C07" Keyed.monC07, MonEntry.ofMonitor "C07a" Keyed.monC07a, MonEntry.ofMonitor "C06o" Keyed.monC06o, MonEntry.ofMonitor "C07c" Keyed.monC07c, MonEntry.ofMonitor "C07b" Keyed.monC07b] (cap := 3000)
+      [MonEntry.ofMonitor "C06" Keyed.monC06, MonEntry.ofMonitor "C07" Keyed.monC07, MonEntry.ofMonitor "C07a" Keyed.monC07a, MonEntry.ofMonitor "C06o" Keyed.monC06o, MonEntry.ofMonitor "C07c" Keyed.monC07c, MonEntry.ofMonitor "C07b" Keyed.monC07b, MonEntry.ofMonitor "C07r" Keyed.monC07r] (cap := 3000)
   ] args
